@@ -2,6 +2,7 @@ package checks
 
 import (
 	"fmt"
+	"sort"
 	"strconv"
 	"strings"
 	"sync"
@@ -108,6 +109,29 @@ func tvRunOpts(ctx *RunCtx, pkgs []*tv.Package, o tvOpts) error {
 				ctx.Inconcl = append(ctx.Inconcl, fmt.Sprintf("package %s: output uses a form the GooseLang parser does not know: %v", p.Name, perr))
 				mu.Unlock()
 			}
+			continue
+		}
+		// imported packages of the corpus program: their definitions come first, under dep.X
+		depOK := true
+		for _, dep := range sortedKeysOf(p.Deps) {
+			df, derr := gl.Parse(tr.DepV[dep])
+			if derr != nil || tr.DepV[dep] == "" {
+				mu.Lock()
+				ctx.Inconcl = append(ctx.Inconcl, fmt.Sprintf("package %s: imported package %s has no parsable translation (%v)", p.Name, dep, derr))
+				mu.Unlock()
+				depOK = false
+				break
+			}
+			gl.Qualify(df, dep)
+			var decls []*gl.Decl
+			for _, dd := range df.Decls {
+				if dd.Kind != "other" {
+					decls = append(decls, dd)
+				}
+			}
+			file.Decls = append(decls, file.Decls...)
+		}
+		if !depOK {
 			continue
 		}
 		glp, issues := gl.LoadFile(file)
@@ -277,6 +301,15 @@ func tvRunOpts(ctx *RunCtx, pkgs []*tv.Package, o tvOpts) error {
 	return nil
 }
 
+func sortedKeysOf(m map[string]map[string]string) []string {
+	var out []string
+	for k := range m {
+		out = append(out, k)
+	}
+	sort.Strings(out)
+	return out
+}
+
 func intExtra(ctx *RunCtx, k string) int {
 	v, _ := ctx.Extra[k].(int)
 	return v
@@ -308,6 +341,10 @@ func init() {
 		Level: "translation_validation",
 		Custom: func(ctx *RunCtx) error {
 			if err := tvRun(ctx, gen.Subset(ctx.TierN()), "subset"); err != nil {
+				return err
+			}
+			// programs using a second generated package
+			if err := tvRun(ctx, gen.MultiPkg(), "subset"); err != nil {
 				return err
 			}
 			// grammar-derived programs (fixed seeds): rejected, or accepted and equivalent
